@@ -2,6 +2,7 @@ package main
 
 import (
 	"crypto/sha1"
+	"encoding/json"
 	"fmt"
 	"net/url"
 	"os"
@@ -21,17 +22,19 @@ import (
 	"github.com/zitadel/oidc/v3/pkg/client/rp"
 	"github.com/zitadel/oidc/v3/pkg/client/rs"
 	"github.com/zitadel/oidc/v3/pkg/client/tokenexchange"
-	httphelper "github.com/zitadel/oidc/v3/pkg/http"
 	"github.com/zitadel/oidc/v3/pkg/oidc"
 	"github.com/zitadel/oidc/v3/pkg/op"
 )
 
-const nMixes = 7
-
 var mixNames = []string{"provider-requests", "legacy-server-requests", "relying-party-calls", "rs-te-client-calls-on-one-client",
-	"remote-key-set", "construct-providers-while-serving", "device-polls-on-storage-owned-state"}
+	"remote-key-set", "construct-providers-while-serving", "device-polls-on-storage-owned-state",
+	"remote-key-set-jwks-failing-flapping-unknown-kid-slow", "rp-verify-tokens-jwks-failing", "provider-requests-storage-faults",
+	"rp-rs-te-calls-endpoint-errors"}
+
+var nMixes = len(mixNames)
 
 // raceTier (parent): build this driver with -race and run every mix in a child process.
+// quick: one round, reduced iteration counts; thorough: two rounds, full counts.
 func raceTier(w *emit.Writer, cfg drv.Config, extra map[string]any) []string {
 	root := os.Getenv("VERIF_ROOT")
 	repo := os.Getenv("VERIF_REPO_DIR")
@@ -51,36 +54,68 @@ func raceTier(w *emit.Writer, cfg drv.Config, extra map[string]any) []string {
 	cmd.Env = os.Environ()
 	if out, err := cmd.CombinedOutput(); err != nil {
 		extra["race_build"] = "failed: " + string(out)
-		return []string{"race tier NOT run: go build -race failed in this environment (" + err.Error() + "); data-race freedom is unsampled in this run"}
+		// the race sample is part of the check: a build that no longer works is reported, not skipped
+		w.Add(emit.Case{Input: emit.Ctor("IRace", emit.Nat(0)), Observed: "OPanic", Tags: []string{"kind=race", "mix=build-failed"},
+			Human: map[string]any{"race_build_failed": string(out)}})
+		return []string{"race mixes NOT run: go build -race failed (" + err.Error() + ")"}
 	}
-	reports := map[string]int{}
-	rounds := 2
+	rounds, scale := 2, 100
+	if cfg.Quick {
+		rounds, scale = 1, 30
+	}
+	type job struct{ round, mix int }
+	type result struct {
+		out string
+		err error
+	}
+	var jobs []job
 	for round := 0; round < rounds; round++ {
 		for mix := 0; mix < nMixes; mix++ {
-			c := exec.Command(bin)
-			c.Env = append(os.Environ(), "C20_RACE_MIX="+strconv.Itoa(mix), "C20_RACE_SEED="+strconv.FormatInt(cfg.Seed+int64(round), 10),
-				"GORACE=halt_on_error=0 exitcode=0")
-			out, err := c.CombinedOutput()
-			n := strings.Count(string(out), "WARNING: DATA RACE")
-			obs := emit.Ctor("ORace", emit.Nat(min(n, 99)))
-			if err != nil || !strings.Contains(string(out), "c20-race-mix-done") {
-				obs = "OPanic"
-			}
-			reports[mixNames[mix]] += n
-			first := ""
-			if n > 0 {
-				first = string(out)[:min(len(out), 3000)]
-			}
-			w.Add(emit.Case{Input: emit.Ctor("IRace", emit.Nat(mix)), Observed: obs,
-				Tags:  []string{"kind=race", "mix=" + mixNames[mix]},
-				Human: map[string]any{"mix": mixNames[mix], "round": round, "race_reports": n, "first_report": first, "err": fmt.Sprint(err)}})
+			jobs = append(jobs, job{round, mix})
 		}
 	}
+	results := make([]result, len(jobs))
+	var wg sync.WaitGroup
+	sem := make(chan struct{}, 4)
+	for k, j := range jobs {
+		wg.Add(1)
+		go func() {
+			defer wg.Done()
+			sem <- struct{}{}
+			defer func() { <-sem }()
+			c := exec.Command(bin)
+			c.Env = append(os.Environ(), "C20_RACE_MIX="+strconv.Itoa(j.mix), "C20_RACE_SCALE="+strconv.Itoa(scale),
+				"GORACE=halt_on_error=0 exitcode=0")
+			out, err := c.CombinedOutput()
+			results[k] = result{string(out), err}
+		}()
+	}
+	wg.Wait()
+	reports := map[string]int{}
+	for k, j := range jobs {
+		out, err := results[k].out, results[k].err
+		n := strings.Count(out, "WARNING: DATA RACE")
+		obs := emit.Ctor("ORace", emit.Nat(min(n, 99)))
+		if err != nil || !strings.Contains(out, "c20-race-mix-done") {
+			obs = "OPanic"
+		}
+		reports[mixNames[j.mix]] += n
+		first := ""
+		if n > 0 || obs == "OPanic" {
+			first = out[:min(len(out), 6000)]
+		}
+		w.Add(emit.Case{Input: emit.Ctor("IRace", emit.Nat(j.mix)), Observed: obs,
+			Tags:  []string{"kind=race", "mix=" + mixNames[j.mix]},
+			Human: map[string]any{"mix": mixNames[j.mix], "round": j.round, "race_reports": n, "race_report": first, "err": fmt.Sprint(err)}})
+	}
 	extra["race_reports"] = reports
-	return []string{fmt.Sprintf("race tier: %d concurrent mixes x %d rounds in a -race build (sampled; says nothing about unexplored schedules)", nMixes, rounds)}
+	return []string{fmt.Sprintf("race mixes: %d concurrent mixes x %d round(s) at %d%% iterations in a -race build (sampled; says nothing about unexplored schedules)", nMixes, rounds, scale)}
 }
 
+var raceScale = 100
+
 func par(n, iters int, f func(g, it int)) {
+	iters = max(2, iters*raceScale/100)
 	var wg sync.WaitGroup
 	for g := 0; g < n; g++ {
 		wg.Add(1)
@@ -94,26 +129,50 @@ func par(n, iters int, f func(g, it int)) {
 	wg.Wait()
 }
 
+// a token with the claims of tok but signed by a key the OP never published
+func foreignToken(tok string) string {
+	parts := strings.Split(tok, ".")
+	if len(parts) != 3 {
+		return tok
+	}
+	payload, _ := jose.ParseSigned(tok, []jose.SignatureAlgorithm{jose.ES256, jose.RS256})
+	s, err := jose.NewSigner(jose.SigningKey{Algorithm: jose.ES256, Key: jose.JSONWebKey{Key: opfix.ECKey("c20-foreign"), KeyID: "unknown-kid"}}, nil)
+	if err != nil || payload == nil {
+		return tok
+	}
+	obj, err := s.Sign(payload.UnsafePayloadWithoutVerification())
+	if err != nil {
+		return tok
+	}
+	out, _ := obj.CompactSerialize()
+	return out
+}
+
+func parse(tok string) *jose.JSONWebSignature {
+	jws, _ := jose.ParseSigned(tok, []jose.SignatureAlgorithm{jose.ES256, jose.RS256})
+	return jws
+}
+
 // raceChild runs one concurrent mix on shared instances (process is built with -race).
 func raceChild() {
 	mix, _ := strconv.Atoi(os.Getenv("C20_RACE_MIX"))
+	if s, err := strconv.Atoi(os.Getenv("C20_RACE_SCALE")); err == nil && s > 0 {
+		raceScale = s
+	}
 	savePristine()
 	w := newWorld(worldCfg{})
 	idw = w
 	t := w.tokens()
-	switch mix {
-	case 0, 1: // one provider / one legacy server, every endpoint, from 8 goroutines
-		var o opd
-		if mix == 0 {
-			o = newProvider(1, 2, []poptd{{"", func(w *world) op.Option { return op.WithCustomAuthEndpoint(w.customEps["auth"]) }}}, 0)
-		} else {
-			o = newLegacy(1, 2)
-		}
-		o.run(w)
-		h, eps := w.instHandler(1)
+	other := jose.JSONWebKeySet{Keys: []jose.JSONWebKey{{Key: &opfix.ECKey("c20-third").PublicKey, KeyID: "third", Algorithm: "ES256", Use: "sig"}}}
+	ob, _ := json.Marshal(other)
+	w.otherJWKS = string(ob)
+	foreign := foreignToken(t.id)
+
+	serve := func(i int) {
+		h, eps := w.instHandler(i)
 		par(8, 25, func(g, it int) {
-			tk := w.instFlow(1, 2, false)
-			switch (g + it) % 8 {
+			tk := w.instFlow(i, 2, false)
+			switch (g + it) % 9 {
 			case 0:
 				get(h, oidc.DiscoveryEndpoint, nil)
 			case 1:
@@ -130,72 +189,30 @@ func raceChild() {
 				post(h, eps.EndSession.Relative(), url.Values{"id_token_hint": {tk.id}, "client_id": {"web"}}, false, "")
 			case 7:
 				post(h, eps.Token.Relative(), url.Values{"grant_type": {"refresh_token"}, "refresh_token": {tk.refresh}}, true, "")
-			}
-		})
-	case 2: // one relying party on the default client
-		r, err := rp.NewRelyingPartyOIDC(bg, opfix.Issuer, "web", "web-secret", "https://web.example.com/cb", w.rpScopes)
-		if err != nil {
-			panic(err)
-		}
-		par(8, 25, func(g, it int) {
-			switch (g + it) % 9 {
-			case 0:
-				rp.Userinfo[*oidc.UserInfo](bg, t.access, "Bearer", "alice", r)
-			case 1:
-				rp.RefreshTokens[*oidc.IDTokenClaims](bg, r, t.refresh, "", "")
-			case 2:
-				rp.EndSession(bg, r, t.id, "https://web.example.com/bye", "st")
-			case 3:
-				rp.RevokeToken(bg, r, t.access, "access_token")
-			case 4:
-				rp.CodeExchange[*oidc.IDTokenClaims](bg, w.codeFlow("web", "https://web.example.com/cb"), r)
-			case 5:
-				_ = r.IDTokenVerifier()
-				_ = r.ErrorHandler()
-				_ = r.(rp.HasUnauthorizedHandler).UnauthorizedHandler()
-			case 6:
-				rp.VerifyIDToken[*oidc.IDTokenClaims](bg, t.id, r.IDTokenVerifier())
-			case 7:
-				_ = rp.AuthURL("s", r)
 			case 8:
-				rp.ClientCredentials(bg, r, nil)
+				post(h, eps.DeviceAuthorization.Relative(), url.Values{"scope": {"openid"}}, true, "")
 			}
 		})
+	}
+
+	switch mix {
+	case 0: // one provider, every endpoint, from 8 goroutines
+		newProvider(1, 2, []poptd{{"", func(w *world) op.Option { return op.WithCustomAuthEndpoint(w.customEps["auth"]) }}}, 0).run(w)
+		serve(1)
+	case 1: // one legacy server
+		newLegacy(1, 2).run(w)
+		serve(1)
+	case 2: // one relying party on the default client
+		r, err := rp.NewRelyingPartyOIDC(bg, opfix.Issuer, "web", "web-secret", "https://web.example.com/cb", w.rpScopes, rp.WithVerifierOpts(w.rpVerOpts...))
+		if err != nil {
+			panic(err)
+		}
+		par(8, 25, func(g, it int) { rpCalls(w, r, t, g+it) })
 	case 3: // resource server, token exchanger and bare client.Call* users on ONE caller-supplied client
-		c := w.clients[1]
-		rsrv, err := rs.NewResourceServerClientCredentials(bg, opfix.Issuer, "web", "web-secret", rs.WithClient(c))
-		if err != nil {
-			panic(err)
-		}
-		te, err := tokenexchange.NewTokenExchangerClientCredentials(bg, opfix.Issuer, "web", "web-secret", tokenexchange.WithHTTPClient(c))
-		if err != nil {
-			panic(err)
-		}
-		caller := bareCaller{c}
-		par(8, 25, func(g, it int) {
-			switch (g + it) % 6 {
-			case 0:
-				rs.Introspect[*oidc.IntrospectionResponse](bg, rsrv, t.access)
-			case 1:
-				tokenexchange.ExchangeToken(bg, te, t.access, oidc.AccessTokenType, "", "", nil, nil, []string{"openid"}, oidc.AccessTokenType)
-			case 2:
-				client.Discover(bg, opfix.Issuer, c)
-			case 3:
-				client.CallRevokeEndpoint(bg, client.RevokeRequest{Token: "x", ClientID: "web2", ClientSecret: "web2-secret"}, nil, caller)
-			case 4:
-				client.CallEndSessionEndpoint(bg, oidc.EndSessionRequest{ClientID: "web"}, nil, caller)
-			case 5:
-				client.CallTokenEndpoint(bg, &oidc.ClientCredentialsRequest{GrantType: oidc.GrantTypeClientCredentials, ClientID: "web2", ClientSecret: "web2-secret"}, caller)
-			}
-		})
-	case 4: // one remote key set
+		clientMix(w, t)
+	case 4: // one remote key set, healthy JWKS endpoint
 		ks := rp.NewRemoteKeySet(w.clients[2], opfix.Issuer+"/keys")
-		par(8, 40, func(g, it int) {
-			jws, err := jose.ParseSigned(t.id, []jose.SignatureAlgorithm{jose.ES256, jose.RS256})
-			if err == nil {
-				ks.VerifySignature(bg, jws)
-			}
-		})
+		par(8, 40, func(g, it int) { ks.VerifySignature(bg, parse(t.id)) })
 	case 5: // a default provider serves requests while other providers are constructed with custom endpoints
 		newProvider(1, 2, nil, 0).run(w)
 		h, _ := w.instHandler(1)
@@ -231,7 +248,148 @@ func raceChild() {
 			}
 			wg.Wait()
 		})
+	case 7: // ERROR PATHS of one remote key set: the JWKS endpoint fails, is unreachable, flaps, lacks the kid, is slow, answers garbage
+		for mode := int32(1); mode <= 6; mode++ {
+			for _, warm := range []bool{false, true} {
+				ks := rp.NewRemoteKeySet(w.clients[2], opfix.Issuer+"/keys")
+				w.jwksMode.Store(0)
+				if warm { // cache filled first: later failures must keep serving cached keys
+					ks.VerifySignature(bg, parse(t.id))
+				}
+				w.jwksMode.Store(mode)
+				par(8, 12, func(g, it int) {
+					if (g+it)%3 == 0 {
+						ks.VerifySignature(bg, parse(foreign)) // unknown kid: forces a refresh
+					} else {
+						ks.VerifySignature(bg, parse(t.id))
+					}
+				})
+			}
+		}
+	case 8: // the same through one RP: rp.VerifyTokens / VerifyIDToken from 8 goroutines
+		r, err := rp.NewRelyingPartyOIDC(bg, opfix.Issuer, "web", "web-secret", "https://web.example.com/cb", w.rpScopes, rp.WithVerifierOpts(w.rpVerOpts...))
+		if err != nil {
+			panic(err)
+		}
+		for mode := int32(1); mode <= 6; mode++ {
+			w.jwksMode.Store(mode)
+			par(8, 12, func(g, it int) {
+				switch (g + it) % 3 {
+				case 0:
+					rp.VerifyTokens[*oidc.IDTokenClaims](bg, t.access, t.id, r.IDTokenVerifier())
+				case 1:
+					rp.VerifyIDToken[*oidc.IDTokenClaims](bg, foreign, r.IDTokenVerifier())
+				default:
+					rp.VerifyIDToken[*oidc.IDTokenClaims](bg, t.id, r.IDTokenVerifier())
+				}
+			})
+		}
+	case 9: // provider and legacy server while a storage method fails (refstore fault injection)
+		for i, o := range []opd{newProvider(1, 2, nil, 0), newLegacy(3, 2)} {
+			o.run(w)
+			st := w.stores[2]
+			for _, m := range []string{"KeySet", "SigningKey", "SignatureAlgorithms", "GetClientByClientID", "AuthorizeClientIDSecret", "CreateAccessToken",
+				"CreateAccessAndRefreshTokens", "SetUserinfoFromToken", "SetIntrospectionFromToken", "TokenRequestByRefreshToken", "RevokeToken",
+				"TerminateSession", "AuthRequestByCode", "StoreDeviceAuthorization"} {
+				st.FaultMethod, st.FaultKind = m, []string{"error", "deadline"}[i]
+				h, eps := w.instHandler(o.inst)
+				par(6, 6, func(g, it int) {
+					tk := w.instFlow(o.inst, 2, false)
+					switch (g + it) % 6 {
+					case 0:
+						get(h, oidc.DiscoveryEndpoint, nil)
+						get(h, eps.JwksURI.Relative(), nil)
+					case 1:
+						post(h, eps.Token.Relative(), url.Values{"grant_type": {"client_credentials"}, "scope": {"openid"}}, true, "")
+					case 2:
+						post(h, eps.Userinfo.Relative(), url.Values{}, false, tk.access)
+						post(h, eps.Introspection.Relative(), url.Values{"token": {tk.access}}, true, "")
+					case 3:
+						post(h, eps.Revocation.Relative(), url.Values{"token": {tk.access}}, true, "")
+						post(h, eps.EndSession.Relative(), url.Values{"id_token_hint": {tk.id}, "client_id": {"web"}}, false, "")
+					case 4:
+						post(h, eps.Token.Relative(), url.Values{"grant_type": {"refresh_token"}, "refresh_token": {tk.refresh}}, true, "")
+					case 5:
+						post(h, eps.DeviceAuthorization.Relative(), url.Values{"scope": {"openid"}}, true, "")
+					}
+				})
+				st.FaultMethod = ""
+			}
+		}
+	case 10: // RP / RS / token exchanger / client.Call* while the OP's endpoints answer errors
+		r, err := rp.NewRelyingPartyOIDC(bg, opfix.Issuer, "web", "web-secret", "https://web.example.com/cb", w.rpScopes, rp.WithVerifierOpts(w.rpVerOpts...))
+		if err != nil {
+			panic(err)
+		}
+		for mode := int32(1); mode <= 4; mode++ {
+			w.errMode.Store(0)
+			code := w.codeFlow("web", "https://web.example.com/cb")
+			_ = code
+			w.errMode.Store(mode)
+			par(8, 10, func(g, it int) { rpCalls(w, r, t, g+it) })
+		}
+		w.errMode.Store(4)
+		clientMix(w, t)
 	}
-	_ = httphelper.DefaultHTTPClient
 	fmt.Println("c20-race-mix-done")
+}
+
+func rpCalls(w *world, r rp.RelyingParty, t *tokens, k int) {
+	switch k % 10 {
+	case 0:
+		rp.Userinfo[*oidc.UserInfo](bg, t.access, "Bearer", "alice", r)
+	case 1:
+		rp.RefreshTokens[*oidc.IDTokenClaims](bg, r, t.refresh, "", "")
+	case 2:
+		rp.EndSession(bg, r, t.id, "https://web.example.com/bye", "st")
+	case 3:
+		rp.RevokeToken(bg, r, t.access, "access_token")
+	case 4:
+		rp.CodeExchange[*oidc.IDTokenClaims](bg, w.codeFlow("web", "https://web.example.com/cb"), r)
+	case 5:
+		_ = r.IDTokenVerifier()
+		_ = r.ErrorHandler()
+		_ = r.(rp.HasUnauthorizedHandler).UnauthorizedHandler()
+	case 6:
+		rp.VerifyIDToken[*oidc.IDTokenClaims](bg, t.id, r.IDTokenVerifier())
+	case 7:
+		_ = rp.AuthURL("s", r)
+	case 8:
+		rp.ClientCredentials(bg, r, nil)
+	case 9:
+		rp.DeviceAuthorization(bg, []string{"openid"}, r, nil)
+	}
+}
+
+func clientMix(w *world, t *tokens) {
+	c := w.clients[1]
+	em := w.errMode.Swap(0) // constructors discover against a healthy OP
+	rsrv, err := rs.NewResourceServerClientCredentials(bg, opfix.Issuer, "web", "web-secret", rs.WithClient(c))
+	if err != nil {
+		panic(err)
+	}
+	te, err := tokenexchange.NewTokenExchangerClientCredentials(bg, opfix.Issuer, "web", "web-secret", tokenexchange.WithHTTPClient(c))
+	if err != nil {
+		panic(err)
+	}
+	w.errMode.Store(em)
+	caller := bareCaller{c}
+	par(8, 25, func(g, it int) {
+		switch (g + it) % 7 {
+		case 0:
+			rs.Introspect[*oidc.IntrospectionResponse](bg, rsrv, t.access)
+		case 1:
+			tokenexchange.ExchangeToken(bg, te, t.access, oidc.AccessTokenType, "", "", nil, nil, []string{"openid"}, oidc.AccessTokenType)
+		case 2:
+			client.Discover(bg, opfix.Issuer, c)
+		case 3:
+			client.CallRevokeEndpoint(bg, client.RevokeRequest{Token: "x", ClientID: "web2", ClientSecret: "web2-secret"}, nil, caller)
+		case 4:
+			client.CallEndSessionEndpoint(bg, oidc.EndSessionRequest{ClientID: "web"}, nil, caller)
+		case 5:
+			client.CallTokenEndpoint(bg, &oidc.ClientCredentialsRequest{GrantType: oidc.GrantTypeClientCredentials, ClientID: "web2", ClientSecret: "web2-secret"}, caller)
+		case 6:
+			client.CallDeviceAuthorizationEndpoint(bg, &oidc.ClientCredentialsRequest{ClientID: "web", ClientSecret: "web-secret", Scope: []string{"openid"}}, caller, nil)
+		}
+	})
 }
